@@ -260,6 +260,71 @@ func (Engine) Generate(prop string, r *kit.Rand, tier string) *kit.Scenario[Conf
 		}
 		sc.Ops = append(sc.Ops, o)
 	}
+	if c.NoCache && prop != "C04" && r.Chance(0.7) {
+		// "each status dataset lists exactly the current table contents": a dataset, a change of the table behind it
+		// by whatever route (its own module's command, another module's, a face going away), the dataset again -
+		// all within one freshness period of the first answer
+		for k, nk := 0, r.Range(1, 3); k < nk; k++ {
+			gap := func() int { return kit.Pick(r, []int{1, 20, 100, 300}) }
+			f := uint64(2 + r.Intn(nf))
+			cmd := func(module, verb string, p Params) Op {
+				return Op{Op: "cmd", Face: 0, Prefix: "localhost", Module: module, Verb: verb, P: p, GapMs: gap()}
+			}
+			ds := func(mv string) Op {
+				m, v, _ := strings.Cut(mv, "/")
+				return Op{Op: "dataset", Face: r.Intn(nf), Prefix: "localhost", Module: m, Verb: v, GapMs: gap()}
+			}
+			var seq []Op
+			switch r.Intn(5) {
+			case 0:
+				nm := kit.Pick(r, ribNames)
+				seq = append(seq, cmd("rib", "register", Params{Name: nm, FaceId: u(f)}), ds("rib/list"))
+				switch r.Intn(3) {
+				case 0:
+					seq = append(seq, cmd("faces", "destroy", Params{FaceId: u(f)}))
+				case 1:
+					seq = append(seq, cmd("rib", "unregister", Params{Name: nm, FaceId: u(f)}))
+				case 2:
+					seq = append(seq, cmd("rib", "register", Params{Name: kit.Pick(r, ribNames), FaceId: u(f), Cost: u(uint64(r.Intn(5)))}))
+				}
+				seq = append(seq, ds(kit.Pick(r, []string{"rib/list", "rib/list", "fib/list"})))
+			case 1:
+				nm := kit.Pick(r, fibNames)
+				seq = append(seq, cmd("fib", "add-nexthop", Params{Name: nm, FaceId: u(f)}), ds("fib/list"))
+				switch r.Intn(3) {
+				case 0:
+					seq = append(seq, cmd("fib", "remove-nexthop", Params{Name: nm, FaceId: u(f)}))
+				case 1:
+					seq = append(seq, cmd("fib", "add-nexthop", Params{Name: nm, FaceId: u(f), Cost: u(uint64(1 + r.Intn(5)))}))
+				case 2:
+					seq = append(seq, cmd("rib", "register", Params{Name: kit.Pick(r, ribNames), FaceId: u(f)}))
+				}
+				seq = append(seq, ds("fib/list"))
+			case 2:
+				nm := kit.Pick(r, stratNames)
+				seq = append(seq, ds("strategy-choice/list"), cmd("strategy-choice", "set", Params{Name: nm, Strategy: "/localhost/nfd/strategy/multicast/v=1"}), ds("strategy-choice/list"))
+				if r.Bool() && nm != "/" {
+					seq = append(seq, cmd("strategy-choice", "unset", Params{Name: nm}), ds("strategy-choice/list"))
+				}
+			case 3:
+				seq = append(seq, ds("faces/list"))
+				if r.Bool() {
+					seq = append(seq, cmd("faces", "destroy", Params{FaceId: u(f)}))
+				} else {
+					seq = append(seq, cmd("faces", "update", Params{FaceId: u(f), Mtu: u(uint64(kit.Pick(r, []int{1200, 1500, 8800})))}))
+				}
+				seq = append(seq, ds("faces/list"))
+			case 4:
+				seq = append(seq, ds("cs/info"), cmd("cs", "config", Params{Capacity: u(uint64(kit.Pick(r, []int{0, 7, 300})))}), ds("cs/info"))
+			}
+			for i := range seq {
+				if seq[i].Op == "cmd" && seq[i].Module == "faces" && seq[i].Verb == "destroy" && seq[i].P.FaceId != nil && int(*seq[i].P.FaceId)-2 == seq[i].Face {
+					seq[i].Face = 1 // never destroy the requester's own face
+				}
+			}
+			sc.Ops = append(sc.Ops, seq...)
+		}
+	}
 	return sc
 }
 
